@@ -167,6 +167,20 @@ class BytesV:
         return "bytes[%d]" % len(self.bytes)
 
 
+class StreamV:
+    """a binary stream positioned over an abstract byte source.
+    `backing`: None -> fresh source bytes ('s', k, i); or a BytesV to read from."""
+
+    def __init__(self, name="buff", backing=None):
+        self.name = name
+        self.pos = 0
+        self.backing = backing
+        self.reads = []
+
+    def __repr__(self):
+        return "<stream %s @%s>" % (self.name, self.pos)
+
+
 class PackerV:
     def __init__(self, fmt):
         self.fmt = fmt
@@ -219,6 +233,8 @@ class Interp:
         self.cond_counter = {}
         self.fresh_counter = itertools.count()
         self.steps = 0
+        self.path = []  # (condition text, outcome) for choice splits
+        self.max_split = MAX_SPLIT_BITS  # widest set of source bits enumerated for one condition
 
     # ------------------------------------------------------------------
     def fresh_bytes(self, start, n, tag=None):
@@ -378,10 +394,23 @@ class Interp:
 
     def exec_while(self, s, env, func):
         n = 0
+        test_names = {x.id for x in ast.walk(s.test) if isinstance(x, ast.Name)}
+        seen = set()
         while True:
+            npath, nasg = len(self.path), len(self.asg)
             if not self.truth(self.eval(s.test, env, func), s.test, func):
                 self.exec_block(s.orelse, env, func)
                 return
+            # definite non-termination: the test was decided without any choice and the whole
+            # non-accumulator state repeats
+            if npath == len(self.path) and nasg == len(self.asg):
+                acc = {k for k, v in env.items() if isinstance(v, (BytesV, list, bytearray))}
+                if not (acc & test_names):
+                    snap = tuple(sorted((k, show(v.subst(self.asg) if isinstance(v, Bits) else v)) for k, v in env.items()
+                                        if k not in acc and not k.startswith("__")))
+                    if snap in seen:
+                        raise Raised("NonTermination", s, "loop state repeats with the test true")
+                    seen.add(snap)
             n += 1
             if n > 64:
                 raise AnalysisError("%s: while loop not bounded by abstract evaluation" % func.loc(s))
@@ -491,7 +520,7 @@ class Interp:
             if v.is_const():
                 return v.value() != 0
             srcs = [s for s in v.sources()]
-            if not v.has_top() and 0 < len(srcs) <= MAX_SPLIT_BITS:
+            if not v.has_top() and 0 < len(srcs) <= self.max_split:
                 raise Split(srcs)
             return self.unknown(v, node, func)
         if isinstance(v, (Sym, Lin, Comp, Obj, BufV)) or is_unknown(v):
@@ -520,7 +549,31 @@ class Interp:
         raise Split([key])
 
     def truth_cond(self, c, node, func):
+        r = self._truth_cond(c, node, func)
+        c.outcome = r
+        return r
+
+    def _truth_cond(self, c, node, func):
         # comparison of bit values that needs a split
+        if getattr(c, "outcome", None) is not None:
+            return c.outcome
+        ev = self.truth_cond_eval(c)
+        if ev is not None:
+            return ev
+        if c.keys is not None:
+            keys = [k for k in c.keys if k not in self.asg]
+            if keys and len(keys) <= self.max_split:
+                raise Split(keys)
+        if c.refine is not None:
+            outcome = self.unknown(c, node, func)
+            for want, pins in c.refine:
+                if outcome == want:
+                    for k, v in pins.items():
+                        if k in self.asg and self.asg[k] != v:
+                            raise AnalysisError("%s: inconsistent refinement" % func.loc(node))
+                        self.asg[k] = v
+            self.path.append((ast.unparse(node), outcome))
+            return outcome
         srcs = []
         for x in (c.a, c.b):
             if isinstance(x, Bits):
@@ -531,7 +584,7 @@ class Interp:
                 return self.unknown(c, node, func)
         if not srcs:
             return self.unknown(c, node, func)
-        if len(srcs) > MAX_SPLIT_BITS:
+        if len(srcs) > self.max_split:
             return self.unknown(c, node, func)
         raise Split(srcs)
 
@@ -612,6 +665,8 @@ class Interp:
                 return Ref("func", f)
         if isinstance(base, EnumVal) and attr == "value":
             return int(base)
+        if isinstance(base, Sym) and base.op in ("module", "name") and base.args[0] == "sys" and attr == "maxsize":
+            return 2 ** 63 - 1
         if isinstance(base, Sym) and base.op == "module":
             return Sym("modattr", base.args[0], attr)
         return Sym("attr", base, attr)
@@ -651,6 +706,8 @@ class Interp:
         for x in e.values:
             last = self.eval(x, env, func)
             t = self.truth(last, x, func)
+            if isinstance(last, CondV):
+                last = t
             if isinstance(e.op, ast.And) and not t:
                 return last
             if isinstance(e.op, ast.Or) and t:
@@ -689,8 +746,10 @@ class Interp:
                 return _apply(op, a, b)
             except Exception as ex:
                 raise Raised(type(ex).__name__, node, str(ex))
-        if isinstance(a, BytesV) and isinstance(b, BytesV) and isinstance(op, ast.Add):
-            return BytesV(a.bytes + b.bytes)
+        if isinstance(op, ast.Add) and (isinstance(a, BytesV) or isinstance(b, BytesV)):
+            ca, cb = _as_bytesv(a), _as_bytesv(b)
+            if ca is not None and cb is not None:
+                return BytesV(ca.bytes + cb.bytes)
         if isinstance(a, (list, tuple)) and isinstance(b, (list, tuple)) and isinstance(op, ast.Add) and type(a) == type(b):
             return a + b
         if isinstance(a, list) and isinstance(b, Comp) or isinstance(a, Comp) and isinstance(b, (list, Comp)):
@@ -718,8 +777,10 @@ class Interp:
                 r = ba.add(bb)
                 if r is not None:
                     return r
-            if isinstance(op, ast.Sub) and ba.is_const() and bb.is_const():
-                return Bits.const(ba.value() - bb.value())
+            if isinstance(op, ast.Sub) and bb.is_const():
+                r = ba.add(Bits.const(-bb.value()))
+                if r is not None:
+                    return r
             if isinstance(op, ast.Mult):
                 for x, y in ((ba, bb), (bb, ba)):
                     if y.is_const():
@@ -811,6 +872,13 @@ class Interp:
                 return _cmp(op, a, b)
             except TypeError:
                 return CondV(type(op).__name__, a, b)
+        if isinstance(a, int) and isinstance(b, Bits) and not isinstance(op, (ast.Eq, ast.NotEq)):
+            flip = {ast.Lt: ast.Gt, ast.LtE: ast.GtE, ast.Gt: ast.Lt, ast.GtE: ast.LtE}
+            return self.compare(flip[type(op)](), b, a, node, func)
+        if isinstance(a, Bits) and isinstance(b, int) and not isinstance(b, bool):
+            r = self._cmp_bits_const(op, a, b)
+            if r is not None:
+                return r
         if (isinstance(a, Bits) or isinstance(b, Bits)) and (isinstance(a, (Bits, int)) and isinstance(b, (Bits, int))):
             # decidable without a split?
             ba, bb = as_bits(a), as_bits(b)
@@ -828,6 +896,69 @@ class Interp:
             return False
         return CondV(type(op).__name__, a, b)
 
+    def _cmp_bits_const(self, op, x, c):
+        """x: Bits (not constant), c: int.  -> bool | CondV | None"""
+        if x.has_top():
+            return None
+        name = type(op).__name__
+        if isinstance(op, (ast.Eq, ast.NotEq)):
+            cb = Bits.const(c).b
+            pins = {}
+            for xb, k in zip(x.b, cb):
+                if xb in (0, 1):
+                    if xb != k:
+                        return isinstance(op, ast.NotEq)
+                else:
+                    key = ("s",) + xb[1:]
+                    v = k if xb[0] == "s" else 1 - k
+                    if key in pins and pins[key] != v:
+                        return isinstance(op, ast.NotEq)
+                    pins[key] = v
+            if len(pins) <= self.max_split:
+                return CondV(name, x, c, keys=list(pins))
+            return CondV(name, x, c, refine=[(isinstance(op, ast.Eq), pins)])
+        # ordering comparisons: normalise to  x >= t  (strict=False)  or its negation
+        if isinstance(op, ast.Gt):
+            t, neg = c + 1, False
+        elif isinstance(op, ast.GtE):
+            t, neg = c, False
+        elif isinstance(op, ast.Lt):
+            t, neg = c, True
+        else:
+            t, neg = c + 1, True
+        ext = x.ext
+        if ext not in (0, 1):
+            return CondV(name, x, c, keys=[("s",) + ext[1:]])
+        if t == 0:
+            ge = (ext == 0)
+            return (not ge) if neg else ge
+        if ext == 1:
+            if t > 0:
+                return neg  # x < 0 < t  => x >= t false
+            return None
+        # x >= 0 here
+        if t < 0:
+            return not neg
+        if t & (t - 1) == 0:
+            k = t.bit_length() - 1
+            hi = x.b[k:]
+            if any(b == 1 for b in hi):
+                return not neg
+            keys = []
+            for b in hi:
+                if isinstance(b, tuple):
+                    kk = ("s",) + b[1:]
+                    if kk not in keys:
+                        keys.append(kk)
+            if not keys:
+                return neg
+            if len(keys) <= self.max_split and all(b[0] == "s" for b in hi if isinstance(b, tuple)):
+                return CondV(name, x, c, keys=keys)
+            if all(b[0] == "s" for b in hi if isinstance(b, tuple)):
+                # 'x >= t' false  =>  all deciding bits are zero
+                return CondV(name, x, c, refine=[(neg, {kk: 0 for kk in keys})])
+        return None
+
     def truth_cond_eval(self, c):
         """evaluate CondV under the current assignment if both sides become constants"""
         a, b = c.a, c.b
@@ -837,8 +968,11 @@ class Interp:
         if isinstance(b, Bits):
             b = b.subst(self.asg)
             b = b.value() if b.is_const() else b
-        if _pyconst(a) and _pyconst(b):
-            return _cmp(_OPS[c.op](), a, b)
+        if _pyconst(a) and _pyconst(b) and c.op in _OPS:
+            try:
+                return _cmp(_OPS[c.op](), a, b)
+            except TypeError:
+                return None
         return None
 
     def e_Subscript(self, e, env, func):
@@ -885,7 +1019,7 @@ class Interp:
                 raise Raised("KeyError", e, repr(kk))
             if isinstance(kk, Bits):
                 srcs = kk.sources()
-                if not kk.has_top() and 0 < len(srcs) <= MAX_SPLIT_BITS:
+                if not kk.has_top() and 0 < len(srcs) <= self.max_split:
                     raise Split(srcs)
         if isinstance(base, BytesV) and isinstance(kk, int):
             return Bits.source(base.bytes[kk], False)
@@ -1007,6 +1141,24 @@ class Interp:
             if name in recv.attrs:
                 return self.call_value(recv.attrs[name], name, args, kwargs, e, env, func)
             return Sym("call", "%s.%s" % (recv.name, name), *args)
+        if isinstance(recv, StreamV):
+            if name == "read" and args and isinstance(_int(args[0]), int) and isinstance(recv.pos, int):
+                n = _int(args[0])
+                start = recv.pos
+                recv.pos += n
+                recv.reads.append((start, n))
+                if recv.backing is not None:
+                    if start + n > len(recv.backing.bytes):
+                        return BytesV(recv.backing.bytes[start:start + n])
+                    return BytesV(recv.backing.bytes[start:start + n])
+                return BufV(recv.name, start, n)
+            if name == "tell":
+                return recv.pos
+            if name == "seek" and args and isinstance(_int(args[0]), int) and len(args) == 1:
+                recv.pos = _int(args[0])
+                return recv.pos
+            recv.pos = Sym("pos")
+            return Sym("call", Sym("attr", recv.name, name), *args)
         if isinstance(recv, PackerV):
             if name == "unpack":
                 return self.struct_unpack(recv.fmt, args[0], e, func)
@@ -1060,6 +1212,21 @@ class Interp:
                 pass
             else:
                 raise AnalysisError("%s: struct format %r is not little-endian standard" % (func.loc(node), fmt))
+        if isinstance(buf, BytesV):
+            if len(buf.bytes) != total:
+                raise Raised("struct.error", node, "unpack requires %d bytes, got %d" % (total, len(buf.bytes)))
+            out = []
+            off = 0
+            for code, size, signed in slots:
+                chunk = buf.bytes[off:off + size]
+                off += size
+                if code == "x":
+                    continue
+                if code in ("s", "c"):
+                    out.append(BytesV(chunk))
+                else:
+                    out.append(field_bits(chunk, signed))
+            return tuple(out)
         if not isinstance(buf, BufV):
             self.events.append(("unpack-opaque", (fmt, show(buf))))
             return tuple(Sym("unpacked", fmt, i, buf) for i in range(len(slots)))
@@ -1125,10 +1292,13 @@ class Interp:
 
 
 class CondV:
-    """an undecided comparison"""
+    """an undecided comparison.  `keys`: the source bits that decide it (split on those only);
+    `refine`: (truth_value, {src: bit}) -- taking that outcome pins those source bits."""
 
-    def __init__(self, op, a, b):
+    def __init__(self, op, a, b, keys=None, refine=None):
         self.op, self.a, self.b = op, a, b
+        self.keys = keys
+        self.refine = refine
 
     def __repr__(self):
         return "(%s %s %s)" % (show(self.a), self.op, show(self.b))
@@ -1140,6 +1310,14 @@ class LambdaV:
 
 
 _OPS = {"Eq": ast.Eq, "NotEq": ast.NotEq, "Lt": ast.Lt, "LtE": ast.LtE, "Gt": ast.Gt, "GtE": ast.GtE}
+
+
+def _as_bytesv(v):
+    if isinstance(v, BytesV):
+        return v
+    if isinstance(v, (bytes, bytearray)):
+        return BytesV([[(x >> i) & 1 for i in range(8)] for x in v])
+    return None
 
 
 def _pyconst(v):
